@@ -95,6 +95,11 @@ structure ChansOk (U : List Nat) (chans : List Chan) (dcs : List (Nat × Nat)) (
   qPpid : ∀ x ∈ q, x.2.1 < 4294967296
   sid : ∀ c ∈ chans, ∀ s, c.id = some s → s < 65536
   rcq : ∀ s ∈ rcq, s < 65536
+  /-- a registered stream id is the id of the channel object it points to -/
+  dcLink : ∀ p ∈ dcs, ∃ c, chans[p.2]? = some c ∧ c.id = some p.1
+  /-- an OPEN channel (the only kind an application handler can `send()` on) has its stream id, unless it is reliable
+  (a channel opens on the DCEP ACK or at its announcement, both looked up by id; negotiated channels have one) -/
+  openId : ∀ c ∈ chans, c.ready = 1 → c.Reliable ∨ c.id.isSome
 
 /-- A stored stream reset request can be serialised again (`_reconfig_timer_expired`). -/
 def RcOk (p : Int × Int × Int × List Nat) : Prop :=
@@ -126,13 +131,14 @@ structure WF (U : List Nat) (e : Ep) : Prop where
 /-! ## elementary preservation -/
 
 theorem ChansOk.set {U chans dcs q rcq} (h : ChansOk U chans dcs q rcq) {i : Nat} {c c' : Chan}
-    (hi : chans[i]? = some c) (hs : Chan.Same c c') : ChansOk U (chans.set i c') dcs q rcq := by
+    (hi : chans[i]? = some c) (hs : Chan.Same c c')
+    (ho : c'.ready = 1 → c.ready = 1 ∨ c.Reliable ∨ c.id.isSome) : ChansOk U (chans.set i c') dcs q rcq := by
   obtain ⟨h1, h2, h3⟩ := hs
   have hlt : i < chans.length := by
     rcases Nat.lt_or_ge i chans.length with h | h
     · exact h
     · rw [List.getElem?_eq_none h] at hi; cases hi
-  refine ⟨?_, h.dcKeys, ?_, ?_, h.qPpid, ?_, h.rcq⟩
+  refine ⟨?_, h.dcKeys, ?_, ?_, h.qPpid, ?_, h.rcq, ?_, ?_⟩
   · intro p hp; simpa using h.dcIdx p hp
   · intro x hx; simpa using h.qIdx x hx
   · intro x hx d hd
@@ -150,10 +156,30 @@ theorem ChansOk.set {U chans dcs q rcq} (h : ChansOk U chans dcs q rcq) {i : Nat
     rcases List.mem_or_eq_of_mem_set hd with hd | rfl
     · exact h.sid d hd s hs
     · exact h.sid c (List.mem_of_getElem? hi) s (h1 ▸ hs)
+  · intro p hp
+    obtain ⟨d, hd, hid⟩ := h.dcLink p hp
+    rw [List.getElem?_set]
+    split
+    · rename_i heq
+      refine ⟨c', by simp [hlt], ?_⟩
+      rw [← heq, hi] at hd; cases hd; rw [h1]; exact hid
+    · exact ⟨d, hd, hid⟩
+  · intro d hd hr
+    rcases List.mem_or_eq_of_mem_set hd with hd | rfl
+    · exact h.openId d hd hr
+    · have hc := h.openId c (List.mem_of_getElem? hi)
+      have : c.Reliable ∨ c.id.isSome := by
+        rcases ho hr with h' | h'
+        · exact hc h'
+        · exact h'
+      rcases this with h' | h'
+      · exact Or.inl ⟨h2 ▸ h'.1, h3 ▸ h'.2⟩
+      · exact Or.inr (h1 ▸ h')
 
 theorem WF.setChan {U} {e : Ep} (h : WF U e) {i : Nat} {c c' : Chan} (hi : e.chans[i]? = some c)
-    (hs : Chan.Same c c') : WF U { e with chans := e.chans.set i c' } :=
-  ⟨h.net, h.ch.set hi hs, h.tx, h.rx, h.rcReq, h.rcResp, h.sack, h.ids, h.cap, h.tm1, h.tm2, h.tasks, h.rcr⟩
+    (hs : Chan.Same c c') (ho : c'.ready = 1 → c.ready = 1 ∨ c.Reliable ∨ c.id.isSome) :
+    WF U { e with chans := e.chans.set i c' } :=
+  ⟨h.net, h.ch.set hi hs ho, h.tx, h.rx, h.rcReq, h.rcResp, h.sack, h.ids, h.cap, h.tm1, h.tm2, h.tasks, h.rcr⟩
 
 theorem WF.setTx {U} {e : Ep} (h : WF U e) {tx : Tx} (ht : TxOk U tx) : WF U { e with tx := tx } :=
   ⟨h.net, h.ch, ht, h.rx, h.rcReq, h.rcResp, h.sack, h.ids, h.cap, h.tm1, h.tm2, h.tasks, h.rcr⟩
@@ -188,5 +214,97 @@ theorem WF.t2On {U} {e : Ep} (h : WF U e) {c : Chunk} (hc : c.inRange = true) :
 theorem WF.clearRcr {U} {e : Ep} (h : WF U e) : WF U { e with reconfigRequest := none } :=
   ⟨h.net, h.ch, h.tx, h.rx, h.rcReq, h.rcResp, h.sack, h.ids, h.cap, h.tm1, h.tm2, h.tasks,
    fun p hp => by cases hp⟩
+
+/-! ## the set `U` may grow; budget for it -/
+
+theorem Good.monoU {U U' : List Nat} {c : SChunk} (h : Good U c) (hs : ∀ x ∈ U, x ∈ U') : Good U' c :=
+  ⟨h.1, h.2.imp id (hs _)⟩
+
+theorem FsOk.monoU {U U' : List Nat} {s : List (Nat × Int)} (h : FsOk U s) (hs : ∀ x ∈ U, x ∈ U') : FsOk U' s :=
+  ⟨h.1, fun p hp => ⟨hs _ (h.2 p hp).1, (h.2 p hp).2⟩⟩
+
+theorem TxOk.monoU {U U' : List Nat} {t : Tx} (h : TxOk U t) (hs : ∀ x ∈ U, x ∈ U') : TxOk U' t :=
+  ⟨fun c hc => (h.sent c hc).monoU hs, fun c hc => (h.out c hc).monoU hs, h.chain, h.lastE, h.fs.monoU hs,
+   fun cum st hf => ⟨(h.fwd cum st hf).1, (h.fwd cum st hf).2.monoU hs⟩, h.adv, h.seq, h.tsn⟩
+
+theorem ChansOk.monoU {U U' chans dcs q rcq} (h : ChansOk U chans dcs q rcq) (hs : ∀ x ∈ U, x ∈ U') :
+    ChansOk U' chans dcs q rcq :=
+  ⟨h.dcIdx, h.dcKeys, h.qIdx,
+   fun x hx c hc => (h.qPR x hx c hc).imp id (Or.imp id fun ⟨s, h1, h2⟩ => ⟨s, h1, hs s h2⟩),
+   h.qPpid, h.sid, h.rcq, h.dcLink, h.openId⟩
+
+theorem WF.monoU {U U' : List Nat} {e : Ep} (h : WF U e) (hs : ∀ x ∈ U, x ∈ U') (hc : U'.length ≤ 16381) : WF U' e :=
+  ⟨h.net, h.ch.monoU hs, h.tx.monoU hs, h.rx, h.rcReq, h.rcResp, h.sack, h.ids, hc, h.tm1, h.tm2, h.tasks, h.rcr⟩
+
+/-- The invariant with its capacity: there is a set `U` of streams for partially reliable user messages such that
+`|U|` + the number of armed application handlers (each may send once, possibly on a new partially reliable stream)
++ `B` (what the application may still spend on `send()` / arming handlers) does not exceed 16381, the number of
+streams a FORWARD-TSN chunk can list. -/
+inductive WFx (B : Nat) (e : Ep) : Prop
+  | mk (U : List Nat) (hb : U.length + e.reactions.length + B ≤ 16381) (hw : WF U e)
+
+theorem WFx.mono {B B' : Nat} {e : Ep} (h : WFx B e) (hb : B' ≤ B) : WFx B' e := by
+  obtain ⟨U, h1, h2⟩ := h
+  exact ⟨U, by omega, h2⟩
+
+/-- What an application handler (hence `_setReadyState`, `_addBufferedAmount`) may change: the channel objects (their
+number stays), the channel queue, the task queue and the armed handlers. -/
+def RFrame (e e' : Ep) : Prop :=
+  ∃ cs q ts rs, e' = { e with chans := cs, dcQueue := q, tasks := ts, reactions := rs } ∧
+    cs.length = e.chans.length
+
+theorem RFrame.refl (e : Ep) : RFrame e e := ⟨e.chans, e.dcQueue, e.tasks, e.reactions, rfl, rfl⟩
+
+theorem RFrame.trans {a b c : Ep} (h1 : RFrame a b) (h2 : RFrame b c) : RFrame a c := by
+  obtain ⟨cs, q, ts, rs, rfl, hl⟩ := h1
+  obtain ⟨cs', q', ts', rs', rfl, hl'⟩ := h2
+  exact ⟨cs', q', ts', rs', rfl, hl'.trans hl⟩
+
+theorem RFrame.rwnd {e e' : Ep} (h : RFrame e e') : e'.rwnd = e.rwnd := by
+  obtain ⟨_, _, _, _, rfl, _⟩ := h; rfl
+theorem RFrame.ins {e e' : Ep} (h : RFrame e e') : e'.inStreams = e.inStreams := by
+  obtain ⟨_, _, _, _, rfl, _⟩ := h; rfl
+theorem RFrame.assoc {e e' : Ep} (h : RFrame e e') : e'.assoc = e.assoc := by
+  obtain ⟨_, _, _, _, rfl, _⟩ := h; rfl
+theorem RFrame.rx {e e' : Ep} (h : RFrame e e') : e'.rx = e.rx := by
+  obtain ⟨_, _, _, _, rfl, _⟩ := h; rfl
+theorem RFrame.dcs {e e' : Ep} (h : RFrame e e') : e'.dataChannels = e.dataChannels := by
+  obtain ⟨_, _, _, _, rfl, _⟩ := h; rfl
+theorem RFrame.len {e e' : Ep} (h : RFrame e e') : e'.chans.length = e.chans.length := by
+  obtain ⟨_, _, _, _, rfl, hl⟩ := h; exact hl
+
+/-- `DataFrame` of C05a plus the task queue and the armed handlers. -/
+def DFrame (e e' : Ep) : Prop :=
+  ∃ cs dcs q tx rq rr rs rt ts re,
+    e' = { e with chans := cs, dataChannels := dcs, dcQueue := q, tx := tx, reconfigQueue := rq,
+                  reconfigRequest := rr, reconfigRequestSeq := rs, rcTimer := rt, tasks := ts, reactions := re } ∧
+    e.chans.length ≤ cs.length
+
+theorem DFrame.refl (e : Ep) : DFrame e e :=
+  ⟨_, _, _, _, _, _, _, _, _, _, rfl, Nat.le_refl _⟩
+
+theorem DFrame.trans {a b c : Ep} (h1 : DFrame a b) (h2 : DFrame b c) : DFrame a c := by
+  obtain ⟨cs, dcs, q, tx, rq, rr, rs, rt, ts, re, rfl, hl⟩ := h1
+  obtain ⟨cs', dcs', q', tx', rq', rr', rs', rt', ts', re', rfl, hl'⟩ := h2
+  exact ⟨_, _, _, _, _, _, _, _, _, _, rfl, Nat.le_trans hl hl'⟩
+
+theorem RFrame.toD {e e' : Ep} (h : RFrame e e') : DFrame e e' := by
+  obtain ⟨cs, q, ts, rs, rfl, hl⟩ := h
+  exact ⟨_, _, _, _, _, _, _, _, _, _, rfl, by omega⟩
+
+theorem DataFrame.toD {e e' : Ep} (h : DataFrame e e') : DFrame e e' := by
+  obtain ⟨cs, dcs, q, tx, rq, rr, rs, rt, rfl, hl⟩ := h
+  exact ⟨_, _, _, _, _, _, _, _, _, _, rfl, hl⟩
+
+theorem DFrame.rwnd {e e' : Ep} (h : DFrame e e') : e'.rwnd = e.rwnd := by
+  obtain ⟨_, _, _, _, _, _, _, _, _, _, rfl, _⟩ := h; rfl
+theorem DFrame.ins {e e' : Ep} (h : DFrame e e') : e'.inStreams = e.inStreams := by
+  obtain ⟨_, _, _, _, _, _, _, _, _, _, rfl, _⟩ := h; rfl
+theorem DFrame.assoc {e e' : Ep} (h : DFrame e e') : e'.assoc = e.assoc := by
+  obtain ⟨_, _, _, _, _, _, _, _, _, _, rfl, _⟩ := h; rfl
+theorem DFrame.rx {e e' : Ep} (h : DFrame e e') : e'.rx = e.rx := by
+  obtain ⟨_, _, _, _, _, _, _, _, _, _, rfl, _⟩ := h; rfl
+theorem DFrame.sackNeeded {e e' : Ep} (h : DFrame e e') : e'.sackNeeded = e.sackNeeded := by
+  obtain ⟨_, _, _, _, _, _, _, _, _, _, rfl, _⟩ := h; rfl
 
 end Aiortc.Sctp.V2
